@@ -22,8 +22,11 @@ CONFIG = dict(
           "BytesIO at offset, real file, buffered file, os.pipe, non-seekable wrapper); inputs on which "
           "analysis fails naturally (unsupported opcodes, truncated, garbage, empty) and by injection "
           "(fault enumeration: an exception of six types raised at the k-th call of every analysis, of "
-          "Interpreter.step and of unparse); and TOCTOU cases in which the monitor swaps the stream's content "
-          "for a sink-calling pickle right after analysis returns.  Oracle: return iff independently "
+          "Interpreter.step and of unparse); TOCTOU cases in which the monitor swaps the stream's content "
+          "for a sink-calling pickle right after analysis returns, or replaces it by equal-length bytes the "
+          "moment the first pass has read through STOP (the bytes reaching pickle.loads must decode to the "
+          "opcode list the analyser was given); and bounded-exhaustive arming sequences over {hook, "
+          "context(T), exit, remove} with probes at every verdict after every step.  Oracle: return iff independently "
           "computed verdict <= threshold; UnsafeFileError.info['severity'] == verdict; no find_class / sink / "
           "effect events in any non-returning outcome; returned object and sink log equal those of the "
           "original _pickle.loads on the analysed bytes.  A case is one distinct (bytes, threshold, path, "
